@@ -11,7 +11,7 @@ from .. import symjax as sj, solve
 from ..ch import runner
 
 FUNCTIONS = ["State.eval_jaxpr_state", "state", "tag_state", "save", "namespace", "_namespace_push/_namespace_pop", "_nested_dict_set/_nested_dict_get", "batch rules of state.tag / namespace primitives"]
-BOUNDS = {"programs": "12 generated programs: repeated names, nested namespaces, scans (nested; namespaces around and inside), vmap and modular_vmap, scan inside vmap, tag_state with several values, leaf-mode save; scan length <= 3, batch 2",
+BOUNDS = {"programs": "20 generated programs (also: a namespace written before a scan and inside its body, the same name across two scans / outer body and inner scan, nested and three-level scans whose outer body saves nothing, leaf-mode save in a scan body): repeated names, nested namespaces, scans (nested; namespaces around and inside), vmap and modular_vmap, scan inside vmap, tag_state with several values, leaf-mode save; scan length <= 3, batch 2",
           "values": "all input values", "transformations": "eager (IR), jit(state(f)), seed(state(f))"}
 ASSUMPTIONS = ["save inside cond branches is excluded, as in the property"]
 EXPLANATION = "state(f) traced and compared, for all inputs, with f and with a recorder twin (Python loops instead of scan/vmap, explicit stacking, namespace stack, later write replaces)"
@@ -85,18 +85,24 @@ class Recorder:
     def _sub(self, fn, *args):
         """run fn with a fresh collection rooted at the current namespace; return (result, collected)"""
         saved_root, saved_stack = self.root, self.stack
-        self.root, self.stack = {}, []
+        self.root, self.stack = {}, list(saved_stack)        # the body runs inside the enclosing namespaces
         try:
             r = fn(*args)
-            col = self.root
+            col = self.root                                   # paths from the ROOT of the collection
         finally:
             self.root, self.stack = saved_root, saved_stack
         return r, col
 
     def _merge_into_current(self, col):
-        cur = self._cur()
-        for k, v in col.items():
-            cur[k] = v
+        """what a scan / vmap body collected is written into the enclosing collection name by name: a later write to
+        the same NAME replaces the earlier one, other names under the same namespace stay"""
+        def merge(dst, src):
+            for k, v in src.items():
+                if isinstance(v, dict) and isinstance(dst.get(k), dict):
+                    merge(dst[k], v)
+                else:
+                    dst[k] = v
+        merge(self.root, col)
 
     def scan(self, body, init, xs):
         n = jax.tree_util.tree_leaves(xs)[0].shape[0]
@@ -241,6 +247,108 @@ def programs():
             return api.scan(body, 0.0, xs)
         return api.namespace(run, "out")(xs)
     P["namespace_scan_namespace"] = (ns_scan_ns, np.asarray([0.1, 0.2], dtype=np.float32))
+    # ---- the same namespace written before a scan and inside its body, repeated names across scans, scans whose
+    # ---- outer body saves nothing, leaf-mode save in a scan body
+    def sibling_then_scan(api, xs):
+        def pre(v):
+            api.save(a=v * 3.0)
+            return v
+        def body(c, x):
+            def step(v):
+                api.save(b=v)
+                return v + x
+            r = api.namespace(step, "in")(c)
+            return r, r
+        api.namespace(pre, "in")(xs[0])
+        return api.scan(body, 0.5, xs)
+    P["namespace_sibling_then_scan"] = (sibling_then_scan, np.asarray([0.1, 0.2, 0.3], dtype=np.float32))
+
+    def same_name_before_and_in_scan(api, xs):
+        def pre(v):
+            api.save(b=v * 3.0)
+            return v
+        def body(c, x):
+            def step(v):
+                api.save(b=v)
+                return v + x
+            r = api.namespace(step, "in")(c)
+            return r, r
+        api.namespace(pre, "in")(xs[0])
+        return api.scan(body, 0.5, xs)
+    P["same_name_before_and_in_scan"] = (same_name_before_and_in_scan, np.asarray([0.1, 0.2, 0.3], dtype=np.float32))
+
+    def two_scans_same_name(api, xs):
+        def body(c, x):
+            def step(v):
+                api.save(b=v)
+                return v + x
+            r = api.namespace(step, "in")(c)
+            return r, r
+        c1, _ = api.scan(body, 0.5, xs)
+        return api.scan(body, c1, xs[:2] * 2.0)
+    P["two_scans_same_name"] = (two_scans_same_name, np.asarray([0.1, 0.2, 0.3], dtype=np.float32))
+
+    def outer_then_inner_same_name(api, xs):
+        def outer(c, x):
+            def tagb(v):
+                api.save(b=v)
+                return v
+            api.namespace(tagb, "in")(c)
+            def inner(d, y):
+                r = api.namespace(tagb, "in")(d * y)
+                return d + y, r
+            d, _ = api.scan(inner, c, jnp.stack([x, x * 2.0]))
+            return d, d
+        return api.scan(outer, 1.0, xs)
+    P["outer_then_inner_scan_same_name"] = (outer_then_inner_same_name, np.asarray([0.1, 0.2, 0.3], dtype=np.float32))
+
+    def only_inner_saves(api, xs):
+        def outer(c, x):
+            def inner(d, y):
+                api.save(i=d, sq=y * y)
+                return d + y, d
+            d, _ = api.scan(inner, c, jnp.stack([x, x * 2.0]))
+            return d, d                       # the outer body saves nothing itself
+        return api.scan(outer, 1.0, xs)
+    P["nested_scan_only_inner_saves"] = (only_inner_saves, np.asarray([0.1, 0.2, 0.3], dtype=np.float32))
+
+    def three_levels(api, xs):
+        def outer(c, x):
+            def middle(d, y):
+                def inner(e, z):
+                    api.save(k=e * z)
+                    return e + z, e
+                e, _ = api.scan(inner, d, jnp.stack([y, y + 1.0]))
+                api.save(m=e)
+                return e, e
+            d, _ = api.scan(middle, c, jnp.stack([x, x * 2.0]))
+            return d, d                       # nothing saved at this level
+        return api.scan(outer, 1.0, xs)
+    P["three_level_scan"] = (three_levels, np.asarray([0.1, 0.2], dtype=np.float32))
+
+    def ns_only_inner(api, xs):
+        def run(xs):
+            def outer(c, x):
+                def inner(d, y):
+                    def step(v):
+                        api.save(i=v)
+                        return v
+                    api.namespace(step, "step")(d)
+                    return d + y, d
+                d, _ = api.scan(inner, c, jnp.stack([x, x * 2.0]))
+                return d, d
+            return api.scan(outer, 1.0, xs)
+        return api.namespace(run, "loop")(xs)
+    P["namespace_nested_scan_only_inner_saves"] = (ns_only_inner, np.asarray([0.1, 0.2], dtype=np.float32))
+
+    def leaf_in_scan(api, xs):
+        def run(xs):
+            def body(c, x):
+                api.save(c + x)                # leaf mode inside a scan body, under the namespace "coords"
+                return c + x, c
+            return api.scan(body, 0.0, xs)
+        return api.namespace(run, "coords")(xs)
+    P["leaf_mode_in_scan_under_namespace"] = (leaf_in_scan, np.asarray([0.1, 0.2], dtype=np.float32))
     return P
 
 
@@ -282,6 +390,9 @@ def compare(g, tag, T_real, T_plain, T_ref):
                 if bp.shape == a.shape and z3.is_true(z3.simplify(solve.eq_arrays(a, bp))):
                     b = bp
                     break
+        if a.shape != b.shape:
+            g.ok(f"{tag}: value collected at {'/'.join(k)}", False, f"collected shape {a.shape}, saved values stack to shape {b.shape}")
+            continue
         g.eq(f"{tag}: value collected at {'/'.join(k)}", a, b)
 
 
